@@ -253,6 +253,13 @@ class _Break(Exception):
     pass
 
 
+class _Closure:
+    """A nested function definition met while folding: its body is folded at the call, with the enclosing environment as it is then."""
+
+    def __init__(self, fnode, env):
+        self.fnode, self.env = fnode, env
+
+
 class _Continue(Exception):
     pass
 
@@ -270,6 +277,7 @@ class Folder:
         self.trace = []  # symbolic applications in evaluation order
         self.steps = 0
         self.max_steps = max_steps
+        self.fold_all_methods = False   # symbolic mode: also fold methods that write object state (set by rules that observe that state)
         self.func_stack = []   # repository functions being folded (innermost last): context for resolving helpers / module constants
         self._modconst = {}
 
@@ -559,10 +567,27 @@ class Folder:
             return recv.get(args[0], args[1] if len(args) > 1 else None)
         if isinstance(recv, dict) and f.attr == "pop" and len(args) == 2:
             return recv.pop(args[0], args[1])
+        if isinstance(recv, Obj) and not self.symbolic:
+            cf = self._ctx_func()
+            if cf is not None:
+                from . import flow
+
+                try:
+                    t = flow.MODEL.resolve_call(n, cf)
+                except Exception:
+                    t = None
+                if t is not None and hasattr(t, "node") and isinstance(t.node, ast.FunctionDef) and t.params and t.params[0] in ("self", "cls") and len(self.func_stack) < 8:
+                    kw = {k.arg: self.ev(k.value, env) for k in n.keywords if k.arg}
+                    return self.call(t.node, [recv] + args, kw)
         raise Refuse(f"method {f.attr} on {type(recv).__name__}")
 
     def e_Call(self, n, env):
         f = n.func
+        if isinstance(f, ast.Name) and isinstance(env.get(f.id), _Closure):
+            cl = env[f.id]
+            args = [self.ev(a, env) for a in n.args]
+            kw = {k.arg: self.ev(k.value, env) for k in n.keywords if k.arg}
+            return self.call(cl.fnode, args, kw, base_env=cl.env)
         name = None
         if isinstance(f, ast.Name):
             name = f.id
@@ -626,9 +651,10 @@ class Folder:
                                     if isinstance(b, ast.Name) and b.id == t.params[0]:
                                         return True
                             return False
-                        if isinstance(recv, Obj) and not _stores_state(t.node) and len(self.func_stack) < 6:
+                        if isinstance(recv, Obj) and (self.fold_all_methods or not _stores_state(t.node)) and len(self.func_stack) < 6:
                             # a helper of the class that does not write object state (predicate, accessor, extracted piece of a computation)
                             sub = Folder(symbolic=True, max_steps=20000)
+                            sub.fold_all_methods = self.fold_all_methods
                             sub.func_stack = list(self.func_stack)
                             r = sub.call(t.node, [recv] + args, kw)
                             self.trace.extend(sub.trace)
@@ -676,6 +702,22 @@ class Folder:
             if tg.name == vt or (tg.name == "int" and vt == "bool"):
                 return True
         return False
+
+    def c_hasattr(self, a, kw):
+        o, nme = a
+        if isinstance(o, Obj) and isinstance(nme, str):
+            return nme in o.fields
+        raise Refuse("hasattr on an unknown object")
+
+    def c_getattr(self, a, kw):
+        o, nme = a[0], a[1]
+        if isinstance(o, Obj) and isinstance(nme, str):
+            if nme in o.fields:
+                return o.fields[nme]
+            if len(a) > 2:
+                return a[2]
+            raise Raised("AttributeError")
+        raise Refuse("getattr on an unknown object")
 
     def c_len(self, a, kw):
         if isinstance(a[0], Arr):
@@ -818,12 +860,14 @@ class Folder:
         raise Refuse("np.sum form")
 
     # -- statements ----------------------------------------------------------------
-    def call(self, fnode: ast.FunctionDef, args, kw=None):
+    def call(self, fnode: ast.FunctionDef, args, kw=None, base_env=None):
         """Fold a function on concrete arguments: returns value or raises Raised/Refuse."""
         kw = dict(kw or {})
         a = fnode.args
         names = [x.arg for x in a.posonlyargs + a.args]
-        env = {}
+        env = dict(base_env) if base_env is not None else {}
+        for nme in names:
+            env.pop(nme, None)
         if len(args) > len(names):
             raise Refuse("too many args")
         for nme, v in zip(names, args):
@@ -928,6 +972,9 @@ class Folder:
             if not broke:
                 self.block(st.orelse, env)
             return
+        if isinstance(st, ast.FunctionDef) and not st.decorator_list:
+            env[st.name] = _Closure(st, env)
+            return
         if isinstance(st, ast.Break):
             raise _Break()
         if isinstance(st, ast.Continue):
@@ -953,6 +1000,17 @@ class Folder:
             i = self.ev(t.slice, env)
             if isinstance(c, (list, dict)):
                 c[i] = v
+            elif isinstance(c, Arr) and (isinstance(i, int) or (isinstance(i, tuple) and all(isinstance(x, int) and not isinstance(x, bool) for x in i))):
+                idx = (i,) if isinstance(i, int) else i
+                cur = c.data
+                try:
+                    for x in idx[:-1]:
+                        cur = cur[x]
+                    if isinstance(cur[idx[-1]], list):
+                        raise Refuse("partial index store into an array")
+                    cur[idx[-1]] = v
+                except (IndexError, TypeError):
+                    raise Raised("IndexError", t)
             else:
                 raise Refuse("subscript store")
         else:
